@@ -28,7 +28,7 @@ REQUIRED_FUNCS = ["train/losses.py:MaximumLikelihoodLoss.__call__", "train/losse
 
 def plan(tier, seed):
     nsh = 16
-    return [{"name": f"C17-{i}", "shard": i, "reps": 1 if tier != "thorough" else 12, "stride": 4 if tier != "thorough" else 1, "x64": True, "timeout": 3400}
+    return [{"name": f"C17-{i}", "shard": i, "reps": 1 if tier != "thorough" else 4, "stride": 4 if tier != "thorough" else 1, "x64": True, "timeout": 3400}
             for i in range(nsh)]
 
 
